@@ -400,11 +400,15 @@ def part_histories(ctx, root):
     eprogs = progs if ctx.tier == "thorough" else ["locked", "counter", "token", "diamond", "exports", "structs"]
     sessions.append(("s5", 4, [job(p, dict(c, evm=e), efmts) for p in eprogs for c in cfgs for e in evs]))
     sessions.append(("s6", 5, [job(p, dict(c, evm=e), efmts) for p in reversed(eprogs) for c in cfgs for e in reversed(evs)]))
+    # S7: every ordered pair of output formats (what is computed first must not influence what comes second)
+    pf = ["bytecode", "bytecode_runtime", "ir", "asm", "metadata", "layout", "abi"]
+    pprogs = progs if ctx.tier == "thorough" else ["token", "iface_vyi", "diamond"]
+    sessions.append(("s7", 6, [job(p, c, [f, g]) for p in pprogs for c in cfgs for f in pf for g in pf if f != g]))
     if ctx.tier == "thorough":
         for k in range(4):
             sh = progs[:]
             rnd.shuffle(sh)
-            sessions.append((f"s{7 + k}", rnd.randrange(1, 2 ** 32), [job(p, c, rnd.sample(FORMATS, len(FORMATS))) for p in sh for c in cfgs]))
+            sessions.append((f"s{8 + k}", rnd.randrange(1, 2 ** 32), [job(p, c, rnd.sample(FORMATS, len(FORMATS))) for p in sh for c in cfgs]))
     with ThreadPoolExecutor(max_workers=3) as ex:
         results = list(ex.map(lambda s: run_session(root, s[2], s[1], s[0]), sessions))
     ref = {}
